@@ -576,8 +576,53 @@ def r13_9(ck, F):
     ck.expect(n >= 3, "panicking-mutators#sites", f"{n} (operation, event) pairs", f"only {n} pairs found", None)
 
 
+def r13_10(ck, F):
+    import re
+    ck.rule("R13.10", "derived wire indices agree: for every enum of the crate with derived Serialize and Deserialize (the event "
+            "enums of all observable collections among them) the set of variant indices the serializer emits equals the set the "
+            "deserializer's field visitor accepts — serde numbers a `#[serde(skip)]` variant when serializing but not when "
+            "deserializing, so a skipped variant must come after every transmitted one",
+            "ListEvent reordered to Push, InitialComplete (skipped), Done: with an index-based codec Done is sent as index 2 and "
+            "rejected by the subscriber — every element arrives but completion is never reported (name-based codecs hide it)",
+            floor=40)
+    ser, de = {}, {}
+    for k, b in F.bodies.items():
+        if b.crate != "remoc":
+            continue
+        m = re.search(r"impl (?:[\w:]+::)?Serialize for ([\w:]+)(?:<.*>)?>::serialize$", k)
+        if m:
+            idx = set()
+            for bb, t in b.calls():
+                if re.search(r"serialize_(unit|newtype|tuple|struct)_variant$", callee(t) or "") and len(t["a"]) > 2:
+                    v = const_value(b.expr(t["a"][2]))
+                    if v is not None:
+                        idx.add(v)
+            if idx:
+                ser[m.group(1)] = (idx, b)
+        if k.endswith("visit_u64") and "__FieldVisitor" in k:
+            m = re.search(r"Deserialize<'de> for ([\w:]+)(?:<.*?>)?>::deserialize::__FieldVisitor", k)
+            if m:
+                vals = set()
+                for s_ in b.reachable:
+                    t = b.term(s_)
+                    if t["t"] == "switch" and t["ty"] == "u64":
+                        vals |= {int(v) for v, _ in t["targets"]}
+                de.setdefault(m.group(1), set()).update(vals)
+    n = 0
+    for adt, (idx, b) in sorted(ser.items()):
+        if adt not in de:
+            continue        # serialize-only enum
+        n += 1
+        ck.expect(idx == de[adt], adt.replace("::", "_") + "#wire-indices", f"indices {sorted(idx)} on both sides",
+                  f"{adt}: the derived serializer emits variant indices {sorted(idx)} but the derived deserializer accepts "
+                  f"{sorted(de[adt])}: a skipped variant precedes a transmitted one (or the two derives disagree)", b.loc(0))
+    for adt, (file, inner, ev, mirror_inner, sub, mirrored) in OBSERVABLES.items():
+        ck.expect(ev in ser and ev in de, ev.split("::")[-1] + "#derives-found", "event enum has both derives in the fact base",
+                  f"the derived Serialize / Deserialize of {ev} were not found", None)
+
+
 def run(ck, F):
-    for r in (r13_1, r13_2, r13_3, r13_3b, r13_4, r13_5, r13_6, r13_7, r13_8, r13_9):
+    for r in (r13_1, r13_2, r13_3, r13_3b, r13_4, r13_5, r13_6, r13_7, r13_8, r13_9, r13_10):
         ck.run_rule(r)
 
 
